@@ -449,6 +449,9 @@ run_raw(void *arg)
 }
 
 // =============================================================================
+static long   g_exec;
+static double g_wall;
+
 static void
 explore(const char *name, void (*fn)(void *), void *arg, int depth)
 {
@@ -463,7 +466,19 @@ explore(const char *name, void (*fn)(void *), void *arg, int depth)
 	c.budget[VB_ENV] = -1;
 	c.total          = 0;
 	g_depth          = depth;
-	vx_explore(&c, NULL);
+	vx_stats st;
+	memset(&st, 0, sizeof(st));
+	vx_explore(&c, &st);
+	g_exec += st.executions;
+	g_wall += st.wall_s;
+}
+
+// enough time left today for n more executions (measured rate, 2x margin)?
+static int
+affordable(double n)
+{
+	double rate = g_wall > 1 ? (double) g_exec / g_wall : 300.0;
+	return 2.0 * n / rate + 60 < vx_time_left();
 }
 
 int
@@ -494,11 +509,11 @@ main(int argc, char **argv)
 			explore(name, run_raw, (void *) 1, d);
 	}
 	// deeper runs only when the machine is fast enough today
-	if (T && vx_time_left() > 1000) {
+	if (T && affordable(279936)) {
 		snprintf(name, sizeof(name), "mesh-qd1-blocking-d7");
 		explore(name, run_mesh, &MA[0], 7);
 	}
-	if (T && vx_time_left() > 1000) {
+	if (T && affordable(46656)) {
 		snprintf(name, sizeof(name), "mesh-qd16-blocking-d6");
 		explore(name, run_mesh, &MA[2], 6);
 	}
